@@ -37,7 +37,7 @@ def components(rng, d, kind):
     while int(np.prod(dims)) > 243:
         dims[int(np.argmax(dims))] -= 1
         homogeneous = homogeneous and len(set(dims)) == 1
-    r = int(rng.integers(1, 3))
+    r = int(rng.integers(1, 3)) if kind != 'markov' else 2
     cplx = kind == 'skew_complex' or (kind == 'general' and rng.random() < 0.5)
 
     def herm(m):
@@ -45,6 +45,8 @@ def components(rng, d, kind):
         return (a + a.conj().T) / 2
 
     def site(m):
+        if kind == 'markov':
+            return gen_matrix(m)
         if kind == 'general':
             return gen.randn(rng, (m, m), cplx)
         if kind == 'skew_real':
@@ -52,7 +54,23 @@ def components(rng, d, kind):
             return a - a.T
         return -1j * herm(m)
 
+    def gen_matrix(m):
+        q = rng.random((m, m)) * (rng.random((m, m)) < 0.7)
+        np.fill_diagonal(q, 0.0)
+        return q - np.diag(q.sum(axis=0))
+
     def pair(m1, m2):
+        if kind == 'markov':
+            # one two-site reaction (r1 -> p1, r2 -> p2) with rate c:  c (E_{p1 r1} (x) E_{p2 r2} - E_{r1 r1} (x) E_{r2 r2}): a Markov
+            # generator on the pair of sites (columns sum to 0, off-diagonals >= 0), interaction rank 2
+            r1, r2, p1, p2 = int(rng.integers(0, m1)), int(rng.integers(0, m2)), int(rng.integers(0, m1)), int(rng.integers(0, m2))
+            c = float(rng.uniform(0.2, 2.0)) if (p1, p2) != (r1, r2) else 0.0
+            Ls, Ms = np.zeros((m1, m1, 2)), np.zeros((2, m2, m2))
+            Ls[p1, r1, 0] = c
+            Ms[0, p2, r2] = 1.0
+            Ls[r1, r1, 1] = -c
+            Ms[1, r2, r2] = 1.0
+            return Ls, Ms
         if kind == 'general':
             return gen.randn(rng, (m1, m1, r), cplx), gen.randn(rng, (r, m2, m2), cplx)
         Ls, Ms = [], []
@@ -104,7 +122,7 @@ def state(rng, dims, cplx):
 
 def w_step(ctx, rng, idx):
     d = int(rng.integers(2, 6))
-    kind = ['general', 'skew_real', 'skew_complex'][int(rng.integers(0, 3))]
+    kind = ['general', 'skew_real', 'skew_complex', 'markov'][int(rng.integers(0, 4))]
     S, L, I, M, dims, hom, cplx = components(rng, d, kind)
     with probe.oracle():
         Ae, Ao, _ = monitors_ode.slim_dense(S, L, I, M, d)
@@ -116,6 +134,15 @@ def w_step(ctx, rng, idx):
     N = int(rng.integers(1, 4))
     nz = [0, 2][int(rng.integers(0, 2))] if kind != 'general' or rng.random() < 0.5 else 0
     x0 = state(rng, dims, cplx or rng.random() < 0.3)
+    if kind == 'markov':
+        # probability-like states under Markov generators stay entry-wise non-negative (for the positive-coefficient schemes):
+        # the setting in which the Manhattan normalisation (normalize=1, the library's plain-sum 1-norm) is meaningful
+        # (Yoshida / Kahan-Li have negative sub-steps: entries may turn negative, then only the step-wise value clause - with the
+        # library's plain-sum 1-norm - is asserted, not "unit 1-norm")
+        nz = [1, 1, 0, 2][int(rng.integers(0, 4))]
+        with probe.oracle():
+            v = rng.random(dims) + 0.05
+            x0 = tt.TT((v * float(rng.uniform(0.5, 3.0)) / v.sum()).reshape(list(dims) + [1] * d))
     fn = getattr(ode, scheme + '_splitting')
     ctx.describe({'op': scheme + '_splitting', 'dims': dims, 'homogeneous': hom, 'kind': kind, 'complex': cplx, 'h': h, 'steps': N, 'normalize': nz, 'ranks': x0.ranks})
     kw = dict(threshold=[0.0, 1e-14][int(rng.integers(0, 2))], max_rank=10 ** 4, normalize=nz)
